@@ -224,6 +224,10 @@ def gen_spec(ctx, rng, tier, force=None):
     }
     if kill:
         spec['kill'] = kill
+    if rng.random() < 0.1:
+        # fault: the clock jumps while the threads are running
+        spec['clock_jumps'] = [[rng.randrange(max(1, est)), rng.choice([0.5, 61.0, 3601.0, 86401.0, -10.0])]
+                               for _ in range(rng.randint(1, 3))]
     return spec
 
 
@@ -353,6 +357,7 @@ def run_one(ctx, run_seed, tier, force=None):
         'history_dependence': hd is not None,
         'raised_ok': sum(1 for tc in res['results'] for r in tc if r[0][0] == 'exc'),
         'killed': bool(res.get('killed')),
+        'clock_jumps': res.get('clock_jumps', 0), 'clock_reads': res.get('clock_reads', 0), 'timeouts_fired': res.get('timeouts_fired', 0),
     }
     return summ, spec, res, v
 
